@@ -48,6 +48,8 @@ def observe_init(ss, consistent=True, known_at_limit=()):
         if mdl.n == 0:
             continue
         for dname, dsc in mdl.discrete.items():
+            if mdl.class_name in ("PVD1", "ESD1", "EV1", "EV2") and dname[:2] in ("FL", "VL", "VQ"):
+                continue        # region detectors of the distributed generators (frequency / voltage bands), not limits on a quantity
             if isinstance(dsc, Limiter) and dsc.enable:
                 zi = np.atleast_1d(dsc.zi)
                 if len(zi) == mdl.n:
@@ -164,7 +166,17 @@ def stock(sc):
         # the share of constant power / current / impedance of the static loads after initialisation (documented PQ options)
         w = sc["pq_weights"]
         kw["config_option"] = ["PQ.pq2z=0"] + ["PQ.%s=%s" % (k, v) for k, v in sorted(w.items())]
-    ss = load_case(sc["case"], **kw)
+    if sc.get("set_param"):
+        # a documented option of a device chosen differently in the data (e.g. the input signal of a stabiliser)
+        ss = load_case(sc["case"], setup=False, **kw)
+        mname, pname, val = sc["set_param"]
+        mdl = ss.models[mname]
+        if mdl.n == 0:
+            return dict(sid=sc["sid"], skipped="no device")
+        mdl.__dict__[pname].v[0] = val
+        ss.setup()
+    else:
+        ss = load_case(sc["case"], **kw)
     if sc.get("offline"):
         # one controller / measurement device of the named model is out of service (status given in the data)
         mdl = ss.models[sc["offline"]]
@@ -201,13 +213,17 @@ def handover(sc):
     spec["devices"].append(machine("M1", 3, 200, s["g1"], s["u1"]))
     if s["g2"] > 0:
         spec["devices"].append(machine("M2", 3, 200, s["g2"], s["u2"]))
-    spec["devices"].append(machine("MS", 1, 100, 10, s["us"]))
+    dg = s.get("dg", 0)
+    spec["devices"].append(machine("MS", 1, 100, 10 - dg, s["us"]))
+    if dg:
+        spec["devices"].append(dict(model="PVD1", idx="DGS", bus=1, gen=100, Sn=100.0, pqflag=0, gammap=dg / 10.0, gammaq=dg / 10.0,
+                                    fn=60.0, qmx=9.0, qmn=-9.0, pmx=9.0, ialim=99.0))
     ss, ids, ok = netbuild.build(spec)
     if not ss.PFlow.run():
         return dict(sid=sc["sid"], skipped="pflow")
     on = [(s["g1"], s["u1"])] + ([(s["g2"], s["u2"])] if s["g2"] > 0 else [])
     tot = sum(g for g, u in on if u == 1)
-    consistent = (tot == 10 or tot == 0)
+    consistent = (tot == 10 or tot == 0)      # (the machine and the distributed generator on the slack always add up to one)
     ev = [observe_init(ss, consistent=consistent)]
     if not ev[0]["raised"] and ev[0]["test_ok"]:
         ev.extend(verdict_probes(ss))
